@@ -3,6 +3,6 @@
 set -e
 id="$1"; d="/tmp/seed-$id"
 git -C /repo worktree add --detach "$d" HEAD >/dev/null 2>&1
-cp -r /repo/target "$d/target"
+cp -a /repo/target "$d/target"
 mkdir -p "$d/out"
 echo "$d"
